@@ -11,7 +11,6 @@ from fractions import Fraction
 import numpy as np
 import z3
 
-os.environ.setdefault("NUMBA_DISABLE_JIT", "1")
 
 _NUM = (int, float, Fraction, np.integer, np.floating, bool, np.bool_)
 
@@ -71,6 +70,8 @@ class Abs:
         self.cons = []
         self.n = 0
         self.nonzero = []  # denominators assumed non-zero (recorded assumption)
+        self.defs = {}  # atom name -> (op, arg, [defining lemmas])
+        self.pair = []  # (frozenset(atom names), lemma) relating two atoms
 
     def lookup(self, op, arg):
         for a, r in self.apps.setdefault(op, []):
@@ -108,30 +109,38 @@ class Abs:
         if r is not None:
             return r
         self.n += 1
-        r = z3.Real(f"{op}!{self.n}")
+        name = f"{op}!{self.n}"
+        r = z3.Real(name)
         # lemmas relating to earlier applications
         if op in ("exp", "cos", "sin"):
             neg = z3.simplify(-arg, som=True, mul_to_power=False)
             o = self.lookup(op, neg)
             if o is not None:
                 if op == "exp":
-                    self.cons.append(r * o == 1)
+                    lem = r * o == 1
                 elif op == "cos":
-                    self.cons.append(r == o)
+                    lem = r == o
                 else:
-                    self.cons.append(r == -o)
+                    lem = r == -o
+                self.cons.append(lem)
+                self.pair.append((frozenset([name, str(o)]), lem))
         self.apps[op].append((arg, r))
+        mine = []
         if op == "sqrt":
-            self.cons += [r >= 0, z3.Implies(arg >= 0, r * r == arg)]
+            mine = [r >= 0, z3.Implies(arg >= 0, r * r == arg)]
         elif op == "inv":
-            self.cons += [z3.Implies(arg != 0, r * arg == 1)]
+            mine = [z3.Implies(arg != 0, r * arg == 1)]
         elif op == "exp":
-            self.cons += [r > 0]
+            mine = [r > 0]
         elif op in ("cos", "sin"):
             other = self.lookup("sin" if op == "cos" else "cos", arg)
             if other is not None:
-                self.cons.append(r * r + other * other == 1)
-            self.cons += [r <= 1, r >= -1]
+                lem = r * r + other * other == 1
+                self.cons.append(lem)
+                self.pair.append((frozenset([name, str(other)]), lem))
+            mine = [r <= 1, r >= -1]
+        self.cons += mine
+        self.defs[name] = (op, arg, mine)
         return r
 
     def congruence(self):
@@ -146,14 +155,48 @@ class Abs:
     def all_cons(self, congruence=True):
         return list(self.cons) + (self.congruence() if congruence else [])
 
-    def pyth(self):
-        """cos^2+sin^2=1 for args that have both."""
+    def atoms_in(self, terms):
+        """names of abstraction atoms occurring in the terms, closed under the atoms' arguments."""
+        found = set()
+        seen = set()
+        stack = list(terms)
+        while stack:
+            e = stack.pop()
+            i = e.get_id()
+            if i in seen:
+                continue
+            seen.add(i)
+            if z3.is_const(e) and e.decl().kind() == z3.Z3_OP_UNINTERPRETED:
+                nm = e.decl().name()
+                if nm in self.defs and nm not in found:
+                    found.add(nm)
+                    stack.append(self.defs[nm][1])
+            else:
+                stack.extend(e.children())
+        return found
+
+    def cons_for(self, terms, congruence=True):
+        """lemmas (and congruence) restricted to the atoms in the cone of influence of `terms`."""
+        names = self.atoms_in(terms)
         out = []
-        for a, c in self.apps.get("cos", []):
-            s = self.lookup("sin", a)
-            if s is not None:
-                out.append(c * c + s * s == 1)
+        for nm in sorted(names):
+            out += self.defs[nm][2]
+        for ns, lem in self.pair:
+            if ns <= names:
+                out.append(lem)
+        if congruence:
+            byop = {}
+            for nm in sorted(names):
+                op, arg, _ = self.defs[nm]
+                byop.setdefault(op, []).append((arg, z3.Real(nm)))
+            for op, lst in byop.items():
+                for i in range(len(lst)):
+                    for j in range(i + 1, len(lst)):
+                        out.append(z3.Implies(lst[i][0] == lst[j][0], lst[i][1] == lst[j][1]))
         return out
+
+    def sqrt_args(self, names=None):
+        return [arg for nm, (op, arg, _) in self.defs.items() if op == "sqrt" and (names is None or nm in names)]
 
 
 ABS = Abs()
@@ -289,7 +332,7 @@ class Explorer:
     def _feasible(self, t):
         self.solver.push()
         self.solver.add(t)
-        for c in ABS.all_cons(False):
+        for c in ABS.cons_for([t] + self.assume + self.pc, False):
             self.solver.add(c)
         r = self.solver.check()
         self.solver.pop()
@@ -304,8 +347,14 @@ class Explorer:
             if not isinstance(v, bool):
                 raise Inconclusive("non-deterministic re-execution (decision kinds differ)")
         else:
-            okT = self._feasible(t)
-            okF = self._feasible(z3.Not(t))
+            lits = {z3.simplify(c).get_id() for c in self.assume + self.pc}
+            if z3.simplify(t).get_id() in lits:
+                okT, okF = True, False
+            elif z3.simplify(z3.Not(t)).get_id() in lits:
+                okT, okF = False, True
+            else:
+                okT = self._feasible(t)
+                okF = self._feasible(z3.Not(t))
             if okT and okF:
                 v = True
                 self.open.append(len(self.prefix))
